@@ -42,3 +42,49 @@ func runSmoke(c *vx.Ctx) {
 	p.Outcome("a")
 	p.Outcome("b")
 }
+
+func init() {
+	register(vx.CheckSpec{ID: "smoke2", Shards: 1, Run: runSmoke2})
+}
+
+func runSmoke2(c *vx.Ctx) {
+	core.VScaleParams(core.VR1)
+	p := c.Part("smoke")
+	k1 := core.VGrindKey(1, 0, 0, false)
+	k2 := core.VGrindKey(2, 0, 0, false)
+	n, err := core.VNewNode(core.VNodeConfig{Levels: 3, Alloc: map[common.Address]*big.Int{k1.Addr: new(big.Int).Mul(big.NewInt(1e18), big.NewInt(1000000))}})
+	if err != nil {
+		c.HarnessError(err.Error())
+		return
+	}
+	orders := []int{2, 2, 1, 2, 0, 2, 1, 2, 2, 0, 2, 2, 1, 2, 0, 2, 2, 0, 2, 1, 0, 2, 2, 2, 0, 2, 2, 2}
+	nonce := uint64(0)
+	for i, o := range orders {
+		if i >= 1 {
+			to := k2.Addr
+			tx := n.QuaiTx(k1, nonce, &to, big.NewInt(1000), 21000, big.NewInt(2e15), nil)
+			errs := n.AddTxs(tx)
+			fmt.Println("  add tx:", errs)
+			if errs[0] == nil {
+				nonce++
+			}
+		}
+		blk, err := n.Mine(core.VBuildOpts{Order: o, Fill: true, QiMiner: i%2 == 1})
+		if err != nil {
+			c.HarnessError(fmt.Sprintf("step %d order %d: %v", i, o, err))
+			return
+		}
+		cerr := n.VCheckCommitments(blk)
+		ut, _ := core.VScanUtxos(n.DB[2])
+		fmt.Printf("step %d order %d num=%v txs=%d etxs=%d utxos=%d commitments=%v basefee=%v cb=%x\n", i, o, blk.NumberArray(), len(blk.Transactions()), len(blk.OutboundEtxs()), len(ut), cerr, blk.BaseFee(), blk.PrimaryCoinbase().Bytes()[:2])
+		for _, t := range blk.Transactions() {
+			if t.Type() == 1 {
+				fmt.Printf("      inbound etx type=%d to=%x value=%v\n", t.EtxType(), t.To().Bytes()[:2], t.Value())
+			}
+		}
+		p.Transitions++
+	}
+	p.States = 1
+	p.Outcome("a")
+	p.Outcome("b")
+}
